@@ -1300,7 +1300,9 @@ var (
 // the signature check again.
 func c11ClientVerify(as peer.ID, relayID peer.ID, raw []byte) (*client.Reservation, error) {
 	h := sha256.New()
-	fmt.Fprintf(h, "%s|%s|%d|", as, relayID, time.Now().UnixNano())
+	h.Write([]byte(as))
+	h.Write([]byte(relayID))
+	fmt.Fprintf(h, "|%d|", time.Now().UnixNano())
 	h.Write(raw)
 	var k [32]byte
 	copy(k[:], h.Sum(nil))
